@@ -12,6 +12,9 @@ package main
 // of the response, payload tag = request it was produced for + response
 // number) and whether the message reached the connection's default handler.
 //
+// Responses may also arrive in blocks (Block2) or back to back: c03bw.go has the script events and the
+// families; such a case is emitted as BwCase and replayed on the block-wise layer machine (Token/BwModel.v).
+//
 // Synchronisation is by witnesses only: a call counts as issued when its
 // request is on the wire or it returned; an injected message is waited for
 // through a wrapper around the connection's processReceivedMessage; the calls
@@ -31,6 +34,7 @@ import (
 	"strconv"
 	"strings"
 	"sync"
+	"sync/atomic"
 	"time"
 	"unsafe"
 
@@ -52,6 +56,10 @@ func init() { props["C03"] = runC03 }
 
 const c3Timeout = 5 * time.Second
 
+// limit for witnesses that are certain to arrive (bytes written are cut into frames, a caller that was told to
+// look at its response again does so): never reached unless the process is starved
+const c3SureTimeout = 60 * time.Second
+
 // time the in-memory session needs to write an empty ACK on the pooled set-up (a slow link)
 const c3AckWrite = 300 * time.Microsecond
 
@@ -68,7 +76,7 @@ type c3Start struct {
 }
 
 type c3Op struct {
-	kind  byte // 'S' start, 'G' burst of starts, 'B' burst released through the token-table barrier, 'A' empty ack, 'R' response, 'F' foreign-token response, 'C' cancel
+	kind  byte // 'S' start, 'G' burst of starts, 'B' burst released through the token-table barrier, 'A' empty ack, 'R' response, 'F' foreign-token response, 'C' cancel, 'K' one block of a block-wise (Block2) response, 'W' responses arriving back to back
 	st    []c3Start
 	cid   int
 	rid   int
@@ -76,6 +84,9 @@ type c3Op struct {
 	rkind byte // 'p' piggybacked, 'c' separate CON, 'n' separate NON, 'a' ACK with an unrelated message ID
 	slot  int  // message-ID slot of a separate response: same slot = same message ID
 	tok   []byte
+	num   int    // 'K': block number
+	total int    // 'K': number of blocks of the response (block num is the last one iff num == total-1)
+	sub   []c3Op // 'W': responses ('R') that reach the connection back to back (one write on a stream)
 }
 
 type c3Script struct {
@@ -121,6 +132,14 @@ func (o c3Op) String() string {
 		return fmt.Sprintf("R%d:%d:%c:%d", o.rid, o.forc, o.rkind, o.slot)
 	case 'F':
 		return fmt.Sprintf("F%d:%s:%c:%d", o.rid, c3Hex(o.tok), o.rkind, o.slot)
+	case 'K':
+		return fmt.Sprintf("K%d:%d:%c:%d:%d/%d", o.rid, o.forc, o.rkind, o.slot, o.num, o.total)
+	case 'W':
+		parts := make([]string, len(o.sub))
+		for i, x := range o.sub {
+			parts[i] = x.String()[1:]
+		}
+		return "W" + strings.Join(parts, "+")
 	}
 	return "?"
 }
@@ -166,6 +185,21 @@ func parseC3Script(txt string) (c3Script, error) {
 				return sc, fmt.Errorf("bad response %q", w)
 			}
 			o.rid, o.forc, o.rkind, o.slot = atoi(q[0]), atoi(q[1]), q[2][0], atoi(q[3])
+		case 'K':
+			q := strings.Split(body, ":")
+			if len(q) != 5 || !strings.Contains(q[4], "/") {
+				return sc, fmt.Errorf("bad block %q", w)
+			}
+			nt := strings.Split(q[4], "/")
+			o.rid, o.forc, o.rkind, o.slot, o.num, o.total = atoi(q[0]), atoi(q[1]), q[2][0], atoi(q[3]), atoi(nt[0]), atoi(nt[1])
+		case 'W':
+			for _, p := range strings.Split(body, "+") {
+				q := strings.Split(p, ":")
+				if len(q) != 4 {
+					return sc, fmt.Errorf("bad response %q in %q", p, w)
+				}
+				o.sub = append(o.sub, c3Op{kind: 'R', rid: atoi(q[0]), forc: atoi(q[1]), rkind: q[2][0], slot: atoi(q[3])})
+			}
 		case 'F':
 			q := strings.Split(body, ":")
 			if len(q) != 4 {
@@ -202,6 +236,9 @@ type c3Call struct {
 	c3Start
 	cancel   context.CancelFunc
 	done     chan c3Ret
+	recheck  chan struct{} // held response: closed when the caller may look at its response again and release it
+	again    chan c3Ret    // held response: what the caller reads the second time
+	held     bool
 	onWire   bool
 	wireTok  []byte
 	mid      int
@@ -213,27 +250,44 @@ type c3Call struct {
 }
 
 type c3Run struct {
-	sc        c3Script
-	tcp, bw   bool
-	pooled    bool // "up": message pool on, empty ACKs take c3AckWrite to write, callers release their response at once
-	piled     int  // barrier bursts whose callers were all seen queued on the token table's lock (or back)
-	unpiled   int  // ... released after the time limit instead
-	sess      *memSession
-	ucc       *client.Conn
-	tcc       *tcpclient.Conn
-	peer      net.Conn
-	frames    chan []byte
-	conn      c3Conn
-	processed chan struct{}
-	mu        sync.Mutex
-	fell      int
-	calls     map[int]*c3Call
-	reg       map[uint64]int // bookkeeping used only to know which calls to wait for
-	slotsCON  map[int]bool
-	nextEmit  int
-	bad       string
-	hung      bool // a witness did not arrive within the watchdog time: the rest of the script is skipped
-	items     []string
+	sc         c3Script
+	tcp, bw    bool
+	pooled     bool // message pool on (pool.New(1024, 2048)); "up": empty ACKs take c3AckWrite to write, callers release their response at once
+	bwcase     bool // block-wise layer case (c03bw.go): emitted as BwCase, every event with what the connection wrote (block requests, 4.08)
+	single     bool // the script runs with GOMAXPROCS(1)
+	holdAll    bool // pooled, and the callers keep their responses until the script is over (they release them then)
+	free       chan struct{}
+	holders    sync.WaitGroup // callers that keep a response
+	obsWriter  bool           // the releases of the receive path are observed (callers hold their responses, so nobody else releases in between)
+	winMu      sync.Mutex
+	wins       []*c3Window    // received messages being handled right now
+	lastFilled int            // bookkeeping: the call the last prepared message is expected to complete (-1: none)
+	evWr       []string       // per handled message since the last emitted event: (tcp, hijacked, replaced, releases)
+	sreg       map[uint64]int // bookkeeping: accepted calls that have not returned (blockwise.Do's sending cache)
+	have       map[uint64]int // bookkeeping: blocks reassembled so far per token key (blockwise receiving cache)
+	evAsked    []int          // block numbers the connection asked for since the last emitted event
+	evInc      int            // 4.08 (Request Entity Incomplete) messages the connection wrote since the last emitted event
+	written    *atomic.Int64  // tcp: bytes the connection wrote
+	framed     *atomic.Int64  // tcp: bytes of them the scripted peer has cut into frames
+	piled      int            // barrier bursts whose callers were all seen queued on the token table's lock (or back)
+	unpiled    int            // ... released after the time limit instead
+	sess       *memSession
+	ucc        *client.Conn
+	tcc        *tcpclient.Conn
+	peer       net.Conn
+	frames     chan []byte
+	conn       c3Conn
+	processed  chan struct{}
+	mu         sync.Mutex
+	fell       int
+	panicked   string // a panic of the library on the receive path (guarded by mu)
+	calls      map[int]*c3Call
+	reg        map[uint64]int // bookkeeping used only to know which calls to wait for
+	slotsCON   map[int]bool
+	nextEmit   int
+	bad        string
+	hung       bool // a witness did not arrive within the watchdog time: the rest of the script is skipped
+	items      []string
 }
 
 // number of cases of this run in which something hung; generation stops early after a few
@@ -241,8 +295,17 @@ var c3Hangs int
 
 func (r *c3Run) setup() {
 	r.tcp = r.sc.tr[0] == 't'
-	r.bw = strings.HasSuffix(r.sc.tr, "b")
-	r.pooled = r.sc.tr == "up"
+	r.bw = strings.Contains(r.sc.tr[1:], "b")
+	r.pooled = strings.Contains(r.sc.tr[1:], "p") || strings.Contains(r.sc.tr[1:], "h")
+	r.holdAll = strings.Contains(r.sc.tr[1:], "h")
+	r.single = strings.HasSuffix(r.sc.tr, "1")
+	r.sreg = map[uint64]int{}
+	r.have = map[uint64]int{}
+	r.written, r.framed = &atomic.Int64{}, &atomic.Int64{}
+	r.free = make(chan struct{})
+	if !r.holdAll {
+		close(r.free)
+	}
 	r.processed = make(chan struct{}, 4096)
 	r.calls = map[int]*c3Call{}
 	r.reg = map[uint64]int{}
@@ -252,7 +315,7 @@ func (r *c3Run) setup() {
 		return
 	}
 	r.sess = newMemSession(64 * 1024)
-	if r.pooled {
+	if r.sc.tr == "up" {
 		r.sess.emptyAckDelay = c3AckWrite
 	}
 	cfg := client.DefaultConfig
@@ -272,8 +335,18 @@ func (r *c3Run) setup() {
 	}
 	cfg.GetMID = func() int32 { return 0x2000 }
 	cfg.ProcessReceivedMessage = func(req *pool.Message, cc *client.Conn, h config.HandlerFunc[*client.Conn]) {
-		cc.ProcessReceivedMessageWithHandler(req, h)
-		r.processed <- struct{}{}
+		defer r.receivePathDone()
+		if r.obsWriter {
+			win := r.openWindow(req)
+			cc.ProcessReceivedMessageWithHandler(req, func(w *responsewriter.ResponseWriter[*client.Conn], m *pool.Message) {
+				r.enterHandler(win, w.Message())
+				h(w, m)
+				r.leaveHandler(win, w.Message(), m.IsHijacked())
+			})
+			r.closeWindow(win)
+		} else {
+			cc.ProcessReceivedMessageWithHandler(req, h)
+		}
 	}
 	var opts []client.Option
 	if r.bw {
@@ -303,6 +376,7 @@ func (r *c3Run) setupTCP() {
 					break
 				}
 				r.frames <- append([]byte(nil), buf[:h.MessageLength]...)
+				r.framed.Add(int64(h.MessageLength))
 				buf = buf[h.MessageLength:]
 			}
 			if err != nil {
@@ -320,6 +394,9 @@ func (r *c3Run) setupTCP() {
 	cfg.LimitClientParallelRequests = 0
 	cfg.LimitClientEndpointParallelRequests = 0
 	cfg.MessagePool = pool.New(0, 0)
+	if r.pooled {
+		cfg.MessagePool = pool.New(1024, 2048) // the default configuration
+	}
 	cfg.DisableTCPSignalMessageCSM = true
 	cfg.DisablePeerTCPSignalMessageCSMs = !r.bw
 	var opts []tcpclient.Option
@@ -330,13 +407,23 @@ func (r *c3Run) setupTCP() {
 			})
 		}))
 	}
-	r.tcc = tcpclient.NewConnWithOpts(coapNet.NewConn(c1), &cfg, opts...)
+	r.tcc = tcpclient.NewConnWithOpts(coapNet.NewConn(&c3CountConn{Conn: c1, n: r.written}), &cfg, opts...)
 	r.conn = r.tcc
 	v := reflect.ValueOf(r.tcc).Elem()
 	pf := (*func(*pool.Message, *tcpclient.Conn, tcpclient.HandlerFunc))(unsafe.Pointer(v.FieldByName("processReceivedMessage").UnsafeAddr()))
 	*pf = func(req *pool.Message, cc *tcpclient.Conn, h tcpclient.HandlerFunc) {
-		cc.ProcessReceivedMessageWithHandler(req, h)
-		r.processed <- struct{}{}
+		defer r.receivePathDone()
+		if r.obsWriter {
+			win := r.openWindow(req)
+			cc.ProcessReceivedMessageWithHandler(req, func(w *responsewriter.ResponseWriter[*tcpclient.Conn], m *pool.Message) {
+				r.enterHandler(win, w.Message())
+				h(w, m)
+				r.leaveHandler(win, w.Message(), m.IsHijacked())
+			})
+			r.closeWindow(win)
+		} else {
+			cc.ProcessReceivedMessageWithHandler(req, h)
+		}
 	}
 	csm := make(chan struct{}, 4)
 	r.tcc.SetTCPSignalReceivedHandler(func(c codes.Code) {
@@ -366,7 +453,136 @@ func (r *c3Run) setupTCP() {
 	}
 }
 
+// c3Window: one received message on its way through ProcessReceivedMessageWithHandler, with the messages
+// released to the pool meanwhile (Token/WriterModel.v)
+type c3Window struct {
+	req, orig, final *pool.Message
+	hij              bool
+	rels             []*pool.Message // released; nil entry followed by a message: that message was handed out again
+	origAt, finalAt  int             // length of rels when the handler was entered / left
+}
+
+// the run whose receive path is being observed (the pool's verif hook is process-wide)
+var c3Observed atomic.Pointer[c3Run]
+
+type c3RelTracker struct{}
+
+func (c3RelTracker) Released(_ *pool.Pool, m *pool.Message) {
+	if r := c3Observed.Load(); r != nil {
+		r.winMu.Lock()
+		for _, w := range r.wins {
+			w.rels = append(w.rels, m)
+		}
+		r.winMu.Unlock()
+	}
+}
+func (c3RelTracker) Recycled(*pool.Pool, *pool.Message) {}
+func (c3RelTracker) Reacquired(_ *pool.Pool, m *pool.Message) {
+	if r := c3Observed.Load(); r != nil {
+		r.winMu.Lock()
+		for _, w := range r.wins {
+			w.rels = append(w.rels, nil, m)
+		}
+		r.winMu.Unlock()
+	}
+}
+
+// receivePathDone: the receive path has finished with one message (witness). A panic of the library on the
+// receive path is an observable of the case (class hang/panic), not a crash of the harness.
+func (r *c3Run) receivePathDone() {
+	if x := recover(); x != nil {
+		r.mu.Lock()
+		r.panicked = fmt.Sprintf("the receive path panicked: %v", x)
+		r.mu.Unlock()
+	}
+	r.processed <- struct{}{}
+}
+
+func (r *c3Run) openWindow(req *pool.Message) *c3Window {
+	w := &c3Window{req: req}
+	r.winMu.Lock()
+	r.wins = append(r.wins, w)
+	r.winMu.Unlock()
+	return w
+}
+
+func (r *c3Run) enterHandler(w *c3Window, orig *pool.Message) {
+	r.winMu.Lock()
+	w.orig, w.origAt = orig, len(w.rels)
+	r.winMu.Unlock()
+}
+
+func (r *c3Run) leaveHandler(w *c3Window, final *pool.Message, hij bool) {
+	r.winMu.Lock()
+	w.final, w.hij, w.finalAt = final, hij, len(w.rels)
+	r.winMu.Unlock()
+}
+
+func (r *c3Run) closeWindow(w *c3Window) {
+	r.winMu.Lock()
+	defer r.winMu.Unlock()
+	for i, x := range r.wins {
+		if x == w {
+			r.wins = append(r.wins[:i], r.wins[i+1:]...)
+			break
+		}
+	}
+	// releases of the writer's messages and of the received message: 0 = the message acquired for the
+	// writer, 1 = the received message, 2 = the message the writer holds at the end (if it was replaced)
+	// (a message that the pool hands out again after it was noted as the writer's / the received one is
+	// another message from then on)
+	var codes []string
+	origGone, reqGone, finalGone := false, false, false
+	for i := 0; i < len(w.rels); i++ {
+		m := w.rels[i]
+		if m == nil {
+			i++
+			m = w.rels[i]
+			if m == w.orig && i > w.origAt {
+				origGone = true
+			}
+			if m == w.req {
+				reqGone = true
+			}
+			if m == w.final && i > w.finalAt {
+				finalGone = true
+			}
+			continue
+		}
+		switch {
+		case m == w.orig && i >= w.origAt && !origGone:
+			codes = append(codes, "0%nat")
+		case m == w.req && !reqGone:
+			codes = append(codes, "1%nat")
+		case m == w.final && w.final != w.orig && i >= w.finalAt && !finalGone:
+			codes = append(codes, "2%nat")
+		}
+	}
+	r.evWr = append(r.evWr, fmt.Sprintf("(%s, %s, %s, [%s])", coqBool(r.tcp), coqBool(w.hij), coqBool(w.final != w.orig), strings.Join(codes, "; ")))
+}
+
+// c3CountConn counts the bytes the connection has written (witness for "the peer has seen everything written so far")
+type c3CountConn struct {
+	net.Conn
+	n *atomic.Int64
+}
+
+func (c *c3CountConn) Write(b []byte) (int, error) {
+	n, err := c.Conn.Write(b)
+	c.n.Add(int64(n))
+	return n, err
+}
+
 func (r *c3Run) teardown() {
+	for _, c := range r.calls {
+		if c.held {
+			c.held = false
+			close(c.recheck)
+		}
+	}
+	if r.holdAll {
+		close(r.free)
+	}
 	for _, c := range r.calls {
 		c.cancel()
 	}
@@ -385,6 +601,13 @@ func (r *c3Run) teardown() {
 		_ = r.ucc.Close()
 		r.sess.shutdown()
 	}
+	// the callers that kept a response have released it (nobody of this run touches the pool afterwards)
+	gone := make(chan struct{})
+	go func() { r.holders.Wait(); close(gone) }()
+	select {
+	case <-gone:
+	case <-time.After(c3Timeout):
+	}
 }
 
 func c3PathCid(opts message.Options) int {
@@ -402,8 +625,17 @@ func c3PathCid(opts message.Options) int {
 // drainWire notes the requests that appeared on the wire
 func (r *c3Run) drainWire() {
 	note := func(code codes.Code, tok []byte, mid int, opts message.Options) {
+		if code == codes.RequestEntityIncomplete {
+			r.evInc++
+		}
 		if code < codes.GET || code > codes.DELETE {
 			return
+		}
+		if v, err := opts.GetUint32(message.Block2); err == nil {
+			if _, num, _, errD := blockwise.DecodeBlockOption(v); errD == nil {
+				r.evAsked = append(r.evAsked, int(num))
+				return
+			}
 		}
 		cid := c3PathCid(opts)
 		if c := r.calls[cid]; c != nil && !c.onWire {
@@ -449,7 +681,7 @@ func c3ErrClass(err error) int {
 
 func (r *c3Run) launch(s c3Start, gate chan struct{}) {
 	ctx, cancel := context.WithCancel(context.Background())
-	c := &c3Call{c3Start: s, cancel: cancel, done: make(chan c3Ret, 1), emit: -1}
+	c := &c3Call{c3Start: s, cancel: cancel, done: make(chan c3Ret, 1), recheck: make(chan struct{}), again: make(chan c3Ret, 1), emit: -1}
 	r.calls[s.cid] = c
 	path := fmt.Sprintf("/c%d", s.cid)
 	var req *pool.Message
@@ -469,13 +701,26 @@ func (r *c3Run) launch(s c3Start, gate chan struct{}) {
 		}
 		_ = req.SetPath(path)
 	}
+	hold := r.pooled && r.bwcase
+	if hold {
+		r.holders.Add(1)
+	}
 	go func() {
+		if hold {
+			defer r.holders.Done()
+		}
 		ret := c3Ret{cid: s.cid}
+		stage := 0 // 0: nothing reported yet, 1: the first reading of a held response reported, 2: both
 		defer func() {
 			if recover() != nil {
 				ret.cls = 9
 			}
-			c.done <- ret
+			switch stage {
+			case 0:
+				c.done <- ret
+			case 1:
+				c.again <- ret
+			}
 		}()
 		<-gate
 		var resp *pool.Message
@@ -492,22 +737,69 @@ func (r *c3Run) launch(s c3Start, gate chan struct{}) {
 			ret.cls = c3ErrClass(err)
 			return
 		}
-		ret.tok = append([]byte{}, resp.Token()...)
-		var body []byte
-		if resp.Body() != nil {
-			body, _ = resp.ReadBody()
-		}
-		if len(body) == 4 {
-			ret.forc = int(body[0])<<8 | int(body[1])
-			ret.rid = int(body[2])<<8 | int(body[3])
-		} else {
-			ret.forc, ret.rid = 9999, 9999
+		ret.tok, ret.forc, ret.rid = c3ReadResp(resp)
+		if hold {
+			// the caller keeps its response while the receive path finishes with the message that carried
+			// it, then looks at it once more (it is still the caller's) and releases it
+			c.held = true
+			c.done <- ret
+			stage = 1
+			<-c.recheck
+			ret.tok, ret.forc, ret.rid = c3ReadResp(resp)
+			c.again <- ret
+			stage = 2
+			<-r.free
+			r.conn.ReleaseMessage(resp)
+			return
 		}
 		if r.pooled {
 			// "caller is responsible to release request and response": done as soon as the response is read
 			r.conn.ReleaseMessage(resp)
 		}
 	}()
+}
+
+// c3ReadResp reads token and payload tag (request the response was produced for, response number) of a
+// response. A single-block payload is the 4-byte tag; a block-wise body consists of 16-byte pieces
+// tag(4) num(1) total(1) filler, the last one 6..16 bytes long: all pieces of one response, in order, complete.
+func c3ReadResp(resp *pool.Message) (tok []byte, forc, rid int) {
+	tok = append([]byte{}, resp.Token()...)
+	var body []byte
+	if resp.Body() != nil {
+		body, _ = resp.ReadBody()
+	}
+	forc, rid = 9999, 9999
+	if len(body) == 4 {
+		return tok, int(body[0])<<8 | int(body[1]), int(body[2])<<8 | int(body[3])
+	}
+	if len(body) < 6 {
+		return
+	}
+	total := int(body[5])
+	if total < 1 || len(body) <= 16*(total-1) || len(body) > 16*total {
+		return
+	}
+	for k := 0; k < total; k++ {
+		p := body[16*k:]
+		if len(p) < 6 || !bytes.Equal(p[:4], body[:4]) || int(p[4]) != k || int(p[5]) != total {
+			return
+		}
+	}
+	return tok, int(body[0])<<8 | int(body[1]), int(body[2])<<8 | int(body[3])
+}
+
+// c3BlockPayload is piece num of total of the body of response rid produced for call forc
+func c3BlockPayload(forc, rid, num, total int) []byte {
+	n := 16
+	if num == total-1 {
+		n = 6 + (rid+num)%11
+	}
+	b := make([]byte, n)
+	b[0], b[1], b[2], b[3], b[4], b[5] = byte(forc>>8), byte(forc), byte(rid>>8), byte(rid), byte(num), byte(total)
+	for i := 6; i < n; i++ {
+		b[i] = byte(0xB0 + i)
+	}
+	return b
 }
 
 // collect takes the calls that have returned by now
@@ -522,6 +814,7 @@ func (r *c3Run) collect(into *[]c3Ret) {
 			// what the code does on return: LoadAndDelete of the token's key
 			if c.onWire {
 				delete(r.reg, message.Token(c.wireTok).Hash())
+				delete(r.sreg, message.Token(c.wireTok).Hash())
 			}
 			*into = append(*into, x)
 		default:
@@ -553,8 +846,22 @@ func (r *c3Run) waitFor(into *[]c3Ret, pred func() bool) bool {
 }
 
 func (r *c3Run) encode(typ message.Type, mid int, tok []byte, forc, rid int) []byte {
-	m := message.Message{Code: codes.Content, Token: tok, Payload: []byte{byte(forc >> 8), byte(forc), byte(rid >> 8), byte(rid)}}
+	return r.encodeBlock(typ, mid, tok, []byte{byte(forc >> 8), byte(forc), byte(rid >> 8), byte(rid)}, -1, false)
+}
+
+// encodeBlock: a 2.05 response; num >= 0: with the option Block2 = (num, more, SZX 16)
+func (r *c3Run) encodeBlock(typ message.Type, mid int, tok []byte, payload []byte, num int, more bool) []byte {
+	m := message.Message{Code: codes.Content, Token: tok, Payload: payload}
 	m.Options = message.Options{{ID: message.ContentFormat, Value: []byte{}}}
+	if num >= 0 {
+		v, err := blockwise.EncodeBlockOption(blockwise.SZX16, int64(num), more)
+		if err != nil {
+			panic(err)
+		}
+		ob := make([]byte, 4)
+		n, _ := message.EncodeUint32(ob, v)
+		m.Options = append(m.Options, message.Option{ID: message.Block2, Value: ob[:n]})
+	}
 	buf := make([]byte, 256)
 	if r.tcp {
 		n, err := tcpcoder.DefaultCoder.Encode(m, buf)
@@ -637,7 +944,57 @@ func (r *c3Run) waitExpected(rets *[]c3Ret) {
 }
 
 func (r *c3Run) item(kind string, rets []c3Ret, fell bool) {
-	r.items = append(r.items, fmt.Sprintf("mkOev (%s) %s %s", kind, r.retsCoq(rets), coqBool(fell)))
+	if !r.bwcase {
+		r.items = append(r.items, fmt.Sprintf("mkOev (%s) %s %s", kind, r.retsCoq(rets), coqBool(fell)))
+		return
+	}
+	// block-wise layer case: the event with everything the connection wrote during it
+	r.syncWire()
+	r.recheckHeld(rets)
+	asked := make([]string, len(r.evAsked))
+	for i, n := range r.evAsked {
+		asked[i] = fmt.Sprintf("%d%%nat", n)
+	}
+	r.winMu.Lock()
+	wr := strings.Join(r.evWr, "; ")
+	r.evWr = nil
+	r.winMu.Unlock()
+	r.items = append(r.items, fmt.Sprintf("mkBev (%s) %s %s [%s] %d [%s]", kind, r.retsCoq(rets), coqBool(fell), strings.Join(asked, "; "), r.evInc, wr))
+	r.evAsked, r.evInc = nil, 0
+}
+
+// syncWire: everything the connection has written so far has been looked at (witness on a stream: the
+// scripted peer has cut as many bytes into frames as the connection wrote)
+func (r *c3Run) syncWire() {
+	if r.tcp {
+		deadline := time.Now().Add(c3SureTimeout)
+		for r.framed.Load() < r.written.Load() && time.Now().Before(deadline) {
+			time.Sleep(50 * time.Microsecond)
+		}
+	}
+	r.drainWire()
+}
+
+// recheckHeld: the callers that returned a response during this event and still hold it look at it a second
+// time, now that the receive path has finished with the message that carried it, and release it; what they
+// read now replaces what they read at once if it differs
+func (r *c3Run) recheckHeld(rets []c3Ret) {
+	for i := range rets {
+		c := r.calls[rets[i].cid]
+		if c == nil || !c.held {
+			continue
+		}
+		c.held = false
+		close(c.recheck)
+		select {
+		case x := <-c.again:
+			if x.cls != 0 || !bytes.Equal(x.tok, rets[i].tok) || x.forc != rets[i].forc || x.rid != rets[i].rid {
+				rets[i] = x
+			}
+		case <-time.After(c3SureTimeout):
+			rets[i].cls = 9
+		}
+	}
 }
 
 func (r *c3Run) doStart(o c3Op) {
@@ -704,6 +1061,7 @@ func (r *c3Run) doStart(o c3Op) {
 		if c.onWire {
 			tok = c.wireTok
 			r.reg[message.Token(tok).Hash()] = s.cid
+			r.sreg[message.Token(tok).Hash()] = s.cid
 			c.acked = r.tcp || !s.con
 		}
 		var mine []c3Ret
@@ -715,7 +1073,7 @@ func (r *c3Run) doStart(o c3Op) {
 		if !c.onWire && !c.returned {
 			mine = append(mine, c3Ret{cid: s.cid, cls: 9})
 		}
-		r.item(fmt.Sprintf("KStart %d %s %s", r.emitID(s.cid), coqBytes(tok), coqBool(r.tcp || !s.con)), mine, false)
+		r.item(fmt.Sprintf("%sStart %d %s %s", r.kp(), r.emitID(s.cid), coqBytes(tok), coqBool(r.tcp || !s.con)), mine, false)
 	}
 }
 
@@ -764,16 +1122,19 @@ func c3QueuedOnTable(buf []byte) int {
 	return cnt
 }
 
-func (r *c3Run) doResp(o c3Op) {
+// prepResp builds the datagram / frame of one response event ('R', 'F', 'K') and does the bookkeeping (which
+// call has to come back); msg is the event's description for the case: the arguments of KResp, or for a
+// block-wise layer case the 7-tuple of a BMsg
+func (r *c3Run) prepResp(o c3Op) (data []byte, msg string, ok bool) {
 	var tok []byte
 	ackfor := "None"
 	typ := message.Confirmable
 	mid := 0x7000 + o.slot
 	dedup := false
-	if o.kind == 'R' {
+	if o.kind == 'R' || o.kind == 'K' {
 		c := r.calls[o.forc]
 		if c == nil || !c.onWire {
-			return
+			return nil, "", false
 		}
 		tok = c.wireTok
 		if o.rkind == 'p' && !r.tcp {
@@ -798,25 +1159,136 @@ func (r *c3Run) doResp(o c3Op) {
 		}
 	}
 	del := !(r.tcp && r.bw)
-	if !dedup {
-		h := message.Token(tok).Hash()
+	h := message.Token(tok).Hash()
+	deliver := !dedup
+	blk := "None"
+	if o.kind == 'K' {
+		more := o.num < o.total-1
+		blk = fmt.Sprintf("(Some (%d%%nat, %s))", o.num, coqBool(more))
+		if deliver {
+			// what net/blockwise does with a block of a response (bookkeeping only: which call to wait for)
+			deliver = false
+			if _, paired := r.sreg[h]; paired {
+				n, cached := r.have[h]
+				switch {
+				case !cached && !more:
+					deliver = o.num == 0
+				case o.num == n:
+					if more {
+						r.have[h] = n + 1
+					} else {
+						delete(r.have, h)
+						deliver = true
+					}
+				case !cached:
+					r.have[h] = 0
+				}
+			}
+		}
+		data = r.encodeBlock(typ, mid, tok, c3BlockPayload(o.forc, o.rid, o.num, o.total), o.num, more)
+	} else {
+		data = r.encode(typ, mid, tok, o.forc, o.rid)
+	}
+	r.lastFilled = -1
+	if deliver {
 		if cid, ok := r.reg[h]; ok {
 			if del {
 				delete(r.reg, h)
 			}
 			r.calls[cid].filled = true
+			r.lastFilled = cid
 		}
 	}
-	r.inject(r.encode(typ, mid, tok, o.forc, o.rid), true)
+	if r.bwcase {
+		msg = fmt.Sprintf("(%s, %s, %d%%nat, %s, %d%%nat, %s, %s)", coqBool(del), coqBool(dedup), o.rid, coqBytes(tok), r.emitID(o.forc), ackfor, blk)
+	} else {
+		msg = fmt.Sprintf("%s %s %d %s %d %s", coqBool(del), coqBool(dedup), o.rid, coqBytes(tok), r.emitID(o.forc), ackfor)
+	}
+	return data, msg, true
+}
+
+func (r *c3Run) doResp(o c3Op) {
+	data, msg, ok := r.prepResp(o)
+	if !ok {
+		return
+	}
+	incBefore := r.evInc
+	r.inject(data, true)
+	if r.bwcase && r.lastFilled >= 0 {
+		// a message the connection answered with 4.08 was not handed to anybody: no return to wait for
+		if r.syncWire(); r.evInc > incBefore {
+			r.calls[r.lastFilled].filled = false
+		}
+	}
 	var rets []c3Ret
 	r.waitExpected(&rets)
-	r.item(fmt.Sprintf("KResp %s %s %d %s %d %s", coqBool(del), coqBool(dedup), o.rid, coqBytes(tok), r.emitID(o.forc), ackfor), rets, r.takeFell())
+	if r.bwcase {
+		r.item("BMsg "+msg, rets, r.takeFell())
+	} else {
+		r.item("KResp "+msg, rets, r.takeFell())
+	}
+}
+
+// doBurst: several responses reach the connection back to back (a stream: in one write), before the first
+// of them has been dispatched
+func (r *c3Run) doBurst(o c3Op) {
+	var all []byte
+	var datas [][]byte
+	var msgs []string
+	for _, x := range o.sub {
+		data, msg, ok := r.prepResp(x)
+		if !ok {
+			continue
+		}
+		all = append(all, data...)
+		datas = append(datas, data)
+		msgs = append(msgs, msg)
+	}
+	if len(msgs) == 0 {
+		return
+	}
+	if r.tcp {
+		r.inject(all, false)
+	} else {
+		for _, d := range datas {
+			r.inject(d, false)
+		}
+	}
+	for range msgs {
+		select {
+		case <-r.processed:
+		case <-time.After(c3Timeout):
+			r.bad = "injected message was not processed"
+		}
+	}
+	var rets []c3Ret
+	r.waitExpected(&rets)
+	r.item("BBurst ["+strings.Join(msgs, "; ")+"]", rets, r.takeFell())
 }
 
 func (r *c3Run) run() string {
+	for _, o := range r.sc.ops {
+		if o.kind == 'K' || o.kind == 'W' {
+			r.bwcase = true
+		}
+	}
+	if strings.HasSuffix(r.sc.tr, "1") {
+		// one P: the order in which sync.Pool hands messages out is that of the releases
+		defer runtime.GOMAXPROCS(runtime.GOMAXPROCS(1))
+	}
+	r.obsWriter = r.bwcase && (strings.Contains(r.sc.tr[1:], "p") || strings.Contains(r.sc.tr[1:], "h"))
+	if r.obsWriter {
+		c3Observed.Store(r)
+		defer c3Observed.Store(nil)
+	}
 	r.setup()
 	defer r.teardown()
 	for _, o := range r.sc.ops {
+		r.mu.Lock()
+		if r.panicked != "" && r.bad == "" {
+			r.bad = r.panicked
+		}
+		r.mu.Unlock()
 		if r.bad != "" || r.hung {
 			break
 		}
@@ -841,9 +1313,11 @@ func (r *c3Run) run() string {
 			r.inject(buf[:n], queued)
 			var rets []c3Ret
 			r.waitExpected(&rets)
-			r.item(fmt.Sprintf("KAck %d", r.emitID(o.cid)), rets, r.takeFell())
-		case 'R', 'F':
+			r.item(fmt.Sprintf("%sAck %d", r.kp(), r.emitID(o.cid)), rets, r.takeFell())
+		case 'R', 'F', 'K':
 			r.doResp(o)
+		case 'W':
+			r.doBurst(o)
 		case 'C':
 			c := r.calls[o.cid]
 			if c == nil || !c.onWire {
@@ -855,7 +1329,7 @@ func (r *c3Run) run() string {
 			c.cancel()
 			var rets []c3Ret
 			r.waitExpected(&rets)
-			r.item(fmt.Sprintf("KCancel %d", r.emitID(o.cid)), rets, r.takeFell())
+			r.item(fmt.Sprintf("%sCancel %d", r.kp(), r.emitID(o.cid)), rets, r.takeFell())
 		}
 	}
 	// the calls still waiting are cancelled one by one
@@ -875,12 +1349,32 @@ func (r *c3Run) run() string {
 			c.cancel()
 			r.waitExpected(&rets)
 		}
-		r.item(fmt.Sprintf("KCancel %d", r.emitID(cid)), rets, r.takeFell())
+		r.item(fmt.Sprintf("%sCancel %d", r.kp(), r.emitID(cid)), rets, r.takeFell())
 	}
+	r.mu.Lock()
+	if r.panicked != "" && r.bad == "" {
+		r.bad = r.panicked
+	}
+	r.mu.Unlock()
 	if r.bad != "" {
-		r.items = append(r.items, fmt.Sprintf("mkOev (KCancel 0) [mkRet 0 9 [] 0 0] false (* %s *)", r.bad))
+		if r.bwcase {
+			r.items = append(r.items, fmt.Sprintf("mkBev (BCancel 0) [mkRet 0 9 [] 0 0] false [] 0 [] (* %s *)", r.bad))
+		} else {
+			r.items = append(r.items, fmt.Sprintf("mkOev (KCancel 0) [mkRet 0 9 [] 0 0] false (* %s *)", r.bad))
+		}
+	}
+	if r.bwcase {
+		return "BwCase [" + strings.Join(r.items, "; ") + "]"
 	}
 	return "Case [" + strings.Join(r.items, "; ") + "]"
+}
+
+// prefix of the event constructors: K... in Token/Spec.v, B... in Token/BwSpec.v
+func (r *c3Run) kp() string {
+	if r.bwcase {
+		return "B"
+	}
+	return "K"
 }
 
 func runC3Script(sc c3Script) (string, *c3Run) {
@@ -1264,10 +1758,12 @@ func c3GenSeparate(rng *Rng, n int) c3Script {
 }
 
 func runC03(a runArgs) error {
-	e := NewEmitter("C03", "Token.Run")
-	e.Preamble = "From GoCoap Require Import Token.Model Token.Spec."
+	pool.VerifSetTracker(c3RelTracker{})
+	defer pool.VerifSetTracker(nil)
+	e := NewEmitter("C03", "Token.BwRun")
+	e.Preamble = "From GoCoap Require Import Token.Model Token.Spec Token.BwSpec."
 	e.ShardSize = 120
-	e.Rule = "event scripts on a real udp/client.Conn (in-memory session) and tcp/client.Conn (net.Pipe), block-wise on/off: 1-8 calls (Do with caller-chosen tokens, Get/Post with library tokens; CON/NON) issued one by one or as a burst of goroutines released together, answered in a random order piggybacked / after an empty ACK / before the ACK / as separate CON or NON, with retransmitted and re-sent duplicates, foreign tokens, cancellations, equal tokens (second call while the first is outstanding, bursts with one token, re-use after completion), the CRC-64-colliding token pair, 14 pairs of similar but distinct tokens (differing by trailing / leading zero bytes, length, one byte, byte order; both outstanding, foreign response, late response of a cancelled call, mixed burst), bursts of 2-4 calls with one token released together at the token table (a goroutine holds the table's lock until every caller is queued inside LoadOrStore), and sequential separate-response exchanges on a pooled connection whose empty-ACK write takes 300 us while the caller releases its response at once. Distinct = distinct script; non-trivial = at least two calls or one duplicate / foreign / cancel / equal-token event."
+	e.Rule = "event scripts on a real udp/client.Conn (in-memory session) and tcp/client.Conn (net.Pipe), block-wise on/off: 1-8 calls (Do with caller-chosen tokens, Get/Post with library tokens; CON/NON) issued one by one or as a burst of goroutines released together, answered in a random order piggybacked / after an empty ACK / before the ACK / as separate CON or NON, with retransmitted and re-sent duplicates, foreign tokens, cancellations, equal tokens (second call while the first is outstanding, bursts with one token, re-use after completion), the CRC-64-colliding token pair, 14 pairs of similar but distinct tokens (differing by trailing / leading zero bytes, length, one byte, byte order; both outstanding, foreign response, late response of a cancelled call, mixed burst), bursts of 2-4 calls with one token released together at the token table (a goroutine holds the table's lock until every caller is queued inside LoadOrStore), and sequential separate-response exchanges on a pooled connection whose empty-ACK write takes 300 us while the caller releases its response at once. Block-wise layer (cases replayed on Token/BwModel.v): a Do whose response arrives in 2-4 Block2 blocks with a second Do with its token before / between the blocks, bystanders, two interleaved transfers, duplicated and stale blocks, cancellation mid-transfer, re-use of the token (ub, tb, ubh1, tbh1), and on connections with the message pool on a block-wise download followed by 3-5 calls with distinct tokens answered in another order or all back to back while the callers keep their responses (tbh1, tbh, tbp, ubh1, ubp); these cases also record the block numbers asked for, the 4.08 written and the messages the receive path released. Distinct = distinct script; non-trivial = at least two calls or one duplicate / foreign / cancel / equal-token / block / back-to-back event."
 	emit := func(sc c3Script, fam string) {
 		if c3Hangs >= 3 && a.only == "" {
 			return // enough hung cases to report; do not spend the watchdog time on every further case
@@ -1279,7 +1775,7 @@ func runC03(a runArgs) error {
 			if o.kind == 'S' || o.kind == 'G' || o.kind == 'B' {
 				ncalls += len(o.st)
 			}
-			if o.kind == 'F' || o.kind == 'C' {
+			if o.kind == 'F' || o.kind == 'C' || o.kind == 'K' || o.kind == 'W' {
 				nt = true
 			}
 		}
@@ -1309,7 +1805,25 @@ func runC03(a runArgs) error {
 	if a.tier == "thorough" {
 		nPerm, nEq, nBar, nSep = 600, 100, 40, 200
 	}
-	// The deterministic families come first (a failure found there is the one reported), on a stream of their own.
+	// The block-wise layer families come first (a failure found there is the one reported), on a stream of their own.
+	rng3 := NewRng(a.seed ^ 0xB10CB10C)
+	nDis, nPool := 2, 2
+	if a.tier == "thorough" {
+		nDis, nPool = 40, 30
+	}
+	// a Do whose response comes in blocks and a second Do with its token meanwhile ...
+	for _, tr := range []string{"ub", "tb", "ubh1", "tbh1"} {
+		for v := 0; v < 8*nDis; v++ {
+			emit(c3GenDisplace(rng3.Fork(), tr, v), "displace")
+		}
+	}
+	// ... and, with the message pool on, a block-wise download followed by calls answered out of order / back to back
+	for _, tr := range []string{"tbh1", "tbh", "tbp", "ubh1", "ubp"} {
+		for v := 0; v < 2*nPool; v++ {
+			emit(c3GenPooled(rng3.Fork(), tr, v), "pooled")
+		}
+	}
+	// The deterministic families come next, on a stream of their own.
 	rng2 := NewRng(a.seed ^ 0xC03C03C03)
 	// always run, both tiers: calls with one token released together at the token table ...
 	for _, tr := range trs {
